@@ -233,11 +233,21 @@ def st_is(ts, v):
     return x == v
 
 
-def fp_in(x, lo, hi):
-    """lo <= x <= hi for a float32 scalar (python or z3)"""
+def fp_in(x, lo, hi, tiny=None):
+    """lo <= x <= hi for a float32 scalar (python or z3).  tiny (harness DOMAINS only, e.g. 2**-24): additionally x is +0.0 or
+    |x| >= tiny.  XLA:CPU flushes subnormal results to zero while the IEEE encoding keeps them, so a model built from subnormal
+    inputs (a 1e-38 budget minus a 1e-38 weight) does not replay; jax.random.uniform only produces multiples of 2**-23, so the
+    restricted domain still contains every value a shipped generator can emit.  Stated as a bound of the claim."""
     if not is_sym(x):
-        return bool(np.float32(lo) <= np.float32(x) <= np.float32(hi))
-    return z3.And(z3.fpGEQ(x, z3.FPVal(float(lo), J.F32)), z3.fpLEQ(x, z3.FPVal(float(hi), J.F32)))
+        ok = bool(np.float32(lo) <= np.float32(x) <= np.float32(hi))
+        if tiny is not None:
+            ok = ok and (np.float32(x) == 0 and not np.signbit(np.float32(x)) or abs(np.float32(x)) >= np.float32(tiny))
+        return ok
+    c = z3.And(z3.fpGEQ(x, z3.FPVal(float(lo), J.F32)), z3.fpLEQ(x, z3.FPVal(float(hi), J.F32)))
+    if tiny is not None:
+        pz = z3.And(z3.fpIsZero(x), z3.Not(z3.fpIsNegative(x)))
+        c = z3.And(c, z3.Or(pz, z3.fpGEQ(z3.fpAbs(x), z3.FPVal(float(tiny), J.F32))))
+    return c
 
 
 def num_in(x, lo, hi, dt):
